@@ -103,6 +103,11 @@ CHECKS["C16"] = dict(
    note="bounded exploration (preemption bound 2, thorough 3, plus random); error-count strategy; sequentially consistent atomics",
    technique="TLA+ specs BreakerConc.tla / MC_BreakerConc.tla; TLC model checking of the mechanism; systematic schedule exploration of the real code; TLC trace validation of every execution",
    ref="DESIGN.md §6 C16, §13")
+CHECKS["C18"] = dict(
+   text="Codec.tla treats a rule's JSON document as the function field -> value and states what the datasource parser must deliver: the documented default for a dropped field, an error for a wrong-typed field, the same rule (field by field, and equal under rule equality, serialising to the same document again) for the untouched or re-ordered document, a serialisation error for Custom(_) strategies. TLC enumerates rules of the C12 rule space (sampled in the quick tier, complete for the small families; plus thresholds beyond 2^53 as named values) x document edits (every single field dropped, all fields dropped, one wrong-typed field at a time, reversed order); each case is serialised with serde_json, edited, parsed by the real datasource::rule_json_array_parser and projected back; TLC validates every case. Metric items with counters up to u64::MAX and names with separators, spaces and unicode go through to_string / from_string and TLC checks every field (the name altered only by the separator replacement)",
+   note="byte-level truncation / corruption is outside the specification: driven by the harness with the trivial oracle 'error, never a panic' and reported separately; NaN has no JSON form; 'enforced identically' is concluded from field-wise equality",
+   technique="TLA+ spec Codec.tla (documents as functions, defaults, case predicate); TLC enumeration of the case space replayed through the real parser; TLC validation of every observed case",
+   ref="DESIGN.md §6 C18, §13")
 NOT_APPLICABLE = {}
 
 def main():
@@ -110,7 +115,7 @@ def main():
     hook_commits = [l.split()[0] for l in hooks if "verif hook" in l]
     m = {
      "version": 1,
-     "setup_cmd": "cd /verif/harness && CARGO_NET_OFFLINE=true cargo build --offline",
+     "setup_cmd": "cd /verif/harness && CARGO_NET_OFFLINE=true cargo build --offline && CARGO_NET_OFFLINE=true cargo build --offline -p vh --features ds --bin vh-ds",
      "hooks": {"guard": "--cfg flea1lt_sentinel_rust_verif",
                "enable": "rustflags in /verif/harness/.cargo/config.toml (--cfg flea1lt_sentinel_rust_verif); sentinel-core is a path dependency of the harness, so every check rebuilds /repo's working tree with the hooks on",
                "baseline_off_cmd": "cd /repo && cargo test --workspace --no-fail-fast --offline",
